@@ -35,7 +35,7 @@ CHECKS["C01"] = {
         {"name": "c01", "pkg": "c01", "run": "^Test", "shards": 8},
               {"name": "c01w", "pkg": ".", "overlay": "root", "run": "^TestVerifWiringC01$", "shards": 2},
     ],
-    "expect_checks": ["c01.pure", "c01.e2e", "c01.wiring"],
+    "expect_checks": ["c01.pure", "c01.e2e", "c01.first-flight", "c01.wiring"],
 }
 
 CHECKS["C02"] = {
@@ -49,7 +49,7 @@ CHECKS["C02"] = {
         {"name": "c02", "pkg": "c02", "run": "^Test", "shards": 8},
               {"name": "c02w", "pkg": ".", "overlay": "root", "run": "^TestVerifWiringC02$", "shards": 2},
     ],
-    "expect_checks": ["c02.pure", "c02.e2e", "c02.wiring"],
+    "expect_checks": ["c02.pure", "c02.e2e", "c02.first-flight", "c02.wiring"],
 }
 
 _E2E_NOTE = "Trusted: the in-memory rig (net.Pipe listener with TCP-like addresses, recording net/http backend, raw HTTP/1.1 writer and raw HTTP/2 peer built on x/net v0.19.0 framer+hpack), testing/synctest quiescence; the proxy object graph is built like fingerproxy.Run builds it (proxyserver.NewServer + reverseproxy.NewHTTPHandler + injectors)."
@@ -99,7 +99,7 @@ CHECKS["C03"] = {
     "assumptions": ["scripts are legal by construction; a script the server rejects is discarded and counted (0 in practice)"],
     "units": [{"name": "c03", "pkg": "c03", "run": "^Test", "shards": 8},
               {"name": "c03w", "pkg": ".", "overlay": "root", "run": "^TestVerifWiringC03$", "shards": 2}],
-    "expect_checks": ["c03.e2e", "c03.marshal", "c03.wiring"],
+    "expect_checks": ["c03.e2e", "c03.marshal", "c03.non-h2", "c03.wiring"],
 }
 
 CHECKS["C16"] = {
